@@ -456,3 +456,99 @@ def r10_guards(text: str) -> Tuple[str, int]:
             return text[:arm.start] + new_arm + text[arm.end:], 1
         return text, 0
     return _fix(text, step)
+
+
+# --------------------------------------------------------------------------------------- R4
+def r4_for_each_child(text: str) -> Tuple[str, int]:
+    """`X.for_each_child(|c| BODY);`  ->  `{ let kids__N = X.children_vec(); let mut i__N = 0; while i__N < kids__N.len() { let c = &kids__N[i__N]; BODY i__N += 1; } }`
+    justified by the contract of for_each_child (unit eval_arms: visits exactly kids(node), in order)."""
+    counter = [0]
+    def step(text):
+        T = code_toks(lex(text))
+        for i, t in enumerate(T):
+            if t.kind == "ident" and t.text == "for_each_child" and i > 1 and T[i - 1].text == "." and T[i + 1].text == "(" and T[i + 2].text == "|":
+                cb = match_close(T, i + 1)
+                # receiver: postfix chain before the dot
+                j = i - 2
+                while j >= 0:
+                    x = T[j]
+                    if x.kind == "punct" and x.text in ")]":
+                        d = 0
+                        k = j
+                        while k >= 0:
+                            if T[k].text in ")]":
+                                d += 1
+                            elif T[k].text in "([":
+                                d -= 1
+                                if d == 0:
+                                    break
+                            k -= 1
+                        j = k - 1
+                        if j >= 0 and T[j].kind == "ident":
+                            j -= 1
+                    elif x.kind == "ident":
+                        j -= 1
+                    else:
+                        break
+                    if j >= 0 and T[j].text in (".", "::"):
+                        j -= 1
+                        continue
+                    break
+                recv = text[T[j + 1].start:T[i - 1].start]
+                cvar = T[i + 3].text
+                if T[i + 4].text != "|":
+                    raise RewriteError("for_each_child closure with unexpected parameters")
+                body = text[T[i + 5].start:T[cb - 1].end]
+                if body.strip().startswith("{"):
+                    body = body.strip()[1:-1]
+                counter[0] += 1
+                n = counter[0]
+                end = T[cb].end
+                if cb + 1 < len(T) and T[cb + 1].text == ";":
+                    end = T[cb + 1].end
+                rep = (f"{{ let kids__{n} = {recv}.children_vec(); let mut i__{n}: usize = 0; while i__{n} < kids__{n}.len() /*@@R4-LOOP@@*/ {{ "
+                       f"let {cvar} = &kids__{n}[i__{n}]; {body} i__{n} += 1; }} }}")
+                return _apply(text, [(T[j + 1].start, end, rep)]), 1
+        return text, 0
+    return _fix(text, step)
+
+
+# --------------------------------------------------------------------------------------- R13
+def r13_let_chains(text: str) -> Tuple[str, int]:
+    """`if A && let P = E && B { BODY }` (no else)  ->  `if A { if let P = E { if B { BODY } } }`"""
+    def step(text):
+        T = code_toks(lex(text))
+        for i, t in enumerate(T):
+            if not (t.kind == "ident" and t.text == "if"):
+                continue
+            # condition up to the body `{` at depth 0
+            j = i + 1
+            depth = 0
+            while j < len(T):
+                x = T[j]
+                if x.kind == "punct":
+                    if x.text in "([":
+                        depth += 1
+                    elif x.text in ")]":
+                        depth -= 1
+                    elif x.text == "{" and depth == 0:
+                        break
+                j += 1
+            cond = T[i + 1:j]
+            parts = split_top_level(cond, "&&")
+            if len(parts) < 2 or not any(p and p[0].text == "let" for p in parts):
+                continue
+            if len(parts) == 1:
+                continue
+            e = match_close(T, j)
+            if e + 1 < len(T) and T[e + 1].text == "else":
+                raise RewriteError("let-chain with else branch")
+            body = text[T[j].start:T[e].end]
+            conds = [text[p[0].start:p[-1].end] for p in parts]
+            new = body
+            for c in reversed(conds):
+                new = f"{{ if {c} {new} }}"
+            new = new[2:-2]   # strip the outermost added braces
+            return _apply(text, [(t.start, T[e].end, new)]), 1
+        return text, 0
+    return _fix(text, step)
